@@ -138,3 +138,40 @@ Proof.
   - apply quiescentb_sound; [exists ex_scripts, ex_sched; reflexivity|]. vm_compute. reflexivity.
   - vm_compute. tauto.
 Qed.
+
+(** ** C12: handler slots *)
+(** [del] refuses reserved slots (generated guard) and vacant slots *)
+Theorem del_guard : forall s b h s',
+  wh_del s b = Some (h, s') -> b mod 4096 <> 0 /\ slab_get s b = Some h /\ s' = slab_remove s b.
+Proof. exact wh_del_some. Qed.
+
+(** the slab / bitmap structure in every reachable state: reserved slots (and only they) hold the
+    drop handler, the free list is a duplicate-free chain through exactly the vacant entries, a bitmap
+    exists exactly for the ranges of 4096 keys that have been entered - one per range - with the right base *)
+Theorem slots_invariant : forall st, reachable st -> SInv (core st).
+Proof. intros st R. exact (i_slab _ (reachable_inv st R)). Qed.
+
+(** [add]: the new handler lands on a fresh non-reserved slot of the bitmap the Waker points to; no
+    existing handler moves or disappears; only the reserved handler may appear besides it *)
+Theorem add_slots : forall st h st1 wi,
+  reachable st -> h <> HReserved -> wh_add st h = Some (st1, wi) ->
+  (0 <= wbit wi < 4294967296 /\ wbit wi mod 4096 <> 0) /\ wbm wi = wbit wi / 4096 /\
+  slab_get (sl st) (wbit wi) = None /\ slab_get (sl st1) (wbit wi) = Some h /\
+  (forall x h', slab_get (sl st) x = Some h' -> slab_get (sl st1) x = Some h') /\
+  (forall x h', slab_get (sl st1) x = Some h' -> slab_get (sl st) x = Some h' \/ (x = wbit wi /\ h' = h) \/ h' = HReserved).
+Proof.
+  intros st h st1 wi R Hh H. pose proof (slots_invariant st R) as S.
+  destruct (wh_add_core st h st1 wi H) as [c1 [A [B _]]].
+  pose proof (c_add_spec (core st) h c1 wi S Hh A) as P.
+  assert (Es : c_sl c1 = sl st1) by (destruct B; auto).
+  destruct P as [P1 P2 P3 P4 P5 P6 P7 P8]. rewrite Es in *. cbn [core c_sl] in *.
+  repeat split; auto; try apply P1.
+Qed.
+
+(** a deleted handler is not the reserved one, and its slot is reused only through the free list *)
+Theorem del_not_reserved : forall st b h s',
+  reachable st -> wh_del (sl st) b = Some (h, s') -> h <> HReserved.
+Proof.
+  intros st b h s' R H. apply wh_del_some in H. destruct H as [Hb [Hg _]].
+  eapply (occ_not_reserved (core st)); eauto. apply slots_invariant; auto.
+Qed.
